@@ -913,13 +913,16 @@ class ThreadRun:
         for t in callers:
             t.start()
         quiet = lambda: all(self.done[i] or self.parked[i] for i in range(self.ntasks))  # noqa: E731
-        for _round in range(16):
+        import time
+
+        for _round in range(64):
             self.wait_for("caller-thread", quiet)
             if all(self.done):
                 break
-            self.srv.shutdown()
+            self.srv.shutdown()  # a no-op when the parked serve_forever has not got past the locks yet: let it run
+            time.sleep(1 / 64.0)
         else:
-            raise HarnessError("caller threads still parked after 16 shutdowns")
+            self.no_progress("caller-thread")
         self.stop_all()
         if not self.rec.model.close_invoked:
             # a stopped-not-closed server accepts and answers a client after the next serve_forever
